@@ -548,6 +548,39 @@ fn libsig_case(case: &Case, acc: &mut Acc, row: &KeyRow, comp: bool, msg: &[u8],
             }
         }
     }
+    // ---- recovery call histories: the answer for the signer's compact signature must not depend on what was recovered
+    // just before. For every other header byte g in 27..=34 (same r, s, same message): parse the compact form under g,
+    // recover (answer not judged: nothing fixes what a foreign header recovers), then parse the signer's own compact
+    // bytes and recover - the second answer must be the signer's key in the recorded form. Likewise with the first
+    // recovery made for an altered message under the signer's own header.
+    for g in 27u8..=34 {
+        if g == h {
+            continue;
+        }
+        let mut other = cb.clone();
+        other[0] = g;
+        let a = call(v.acc, || {
+            if let Ok(o) = Signature::from_compact_bytes(&other) {
+                let _ = o.recover_public_key(msg, sh);
+                let _ = o.recover_public_key_from_digest(&z32);
+            }
+            let own = Signature::from_compact_bytes(&cb)?;
+            let k1 = own.recover_public_key(msg, sh)?.to_bytes()?;
+            let k2 = own.recover_public_key_from_digest(&z32)?.to_bytes()?;
+            Ok(if k1 == k2 { k1 } else { [k1, k2].concat() })
+        });
+        v.expect_bytes("recover_public_key/after-recovery-under-other-header", &format!("recovery under header {} first, then under the signer's header {}: signer's key in the recorded form", g, h), a, want_key);
+    }
+    {
+        let mut altered = msg.to_vec();
+        altered.push(0x21);
+        let a = call(v.acc, || {
+            let own = Signature::from_compact_bytes(&cb)?;
+            let _ = own.recover_public_key(&altered, sh);
+            own.recover_public_key(msg, sh)?.to_bytes()
+        });
+        v.expect_bytes("recover_public_key/after-recovery-for-other-message", "same object: altered message first, then the signed message: signer's key in the recorded form", a, want_key);
+    }
     // ---- the whole compact matrix on every kind of object the library hands out for this signature; where the
     // re-issued compact bytes keep the signer's recovery id, recovery must return the signer's key in the form
     // the NEW marker records (signing-key compression x recorded marker)
